@@ -145,6 +145,20 @@ func c18ServerRun(e *Env) {
 		st.sc.peer.ReleaseIn(1 << 30)
 		e.Wait()
 	}
+	// tcp: two connections from one remote address and port (to two local addresses of a wildcard-bound server - a legal
+	// pair of 4-tuples). Both peers are dead; both connections have to go.
+	var twins []*c10Client
+	if kind == "tcp" && !reconnect && t.Chance(1, 4) {
+		for i := 0; i < 2; i++ {
+			tw := &c10Client{id: 90 + i, addr: UDPAddr("10.0.1.77", 47777)}
+			w.connect(tw)
+			e.Wait()
+			twins = append(twins, tw)
+		}
+		e.Fault("peer.twoConnectionsFromOneAddress")
+		e.Probe("server.twoConnectionsFromOneRemoteAddress")
+		e.Logf("two connections from 10.0.1.77:47777 are open")
+	}
 	established := e.Now()
 	e.Logf("cfg server=%s period=%v maxRetries=%d peers=%d", kind, period, maxRetries, nPeers)
 	for _, p := range peers {
@@ -365,6 +379,13 @@ func c18ServerRun(e *Env) {
 		react()
 		checkClosed()
 	}
+	for _, tw := range twins {
+		// the server closes a connection it gives up on: the peer's end sees the end of the stream
+		if !tw.sc.peer.isClosed() {
+			e.Violate("C18.R2", "dead-peer-never-closed:second-connection-from-the-same-address", "one of the two connections from %s (both silent) is still open after %d late ticks beyond the retries (maxRetries=%d)", tw.addr, maxRetries+2, maxRetries)
+			break
+		}
+	}
 	for _, p := range peers {
 		if !p.alive && !p.closed {
 			e.Violate("C18.R2", "dead-peer-never-closed", "dead peer %d (pings sent: %d, none answered) still has its connection after %d late ticks beyond the retries (maxRetries=%d; other peers: %s)", p.c.id, p.pings, maxRetries+2, maxRetries, c18Others(peers, p))
@@ -373,7 +394,11 @@ func c18ServerRun(e *Env) {
 	e.mu.Lock()
 	var twice []string
 	for r, n := range closedByMonitor {
-		if n > 1 {
+		limit := 1
+		if len(twins) > 0 && r == (&net.TCPAddr{IP: twins[0].addr.IP, Port: twins[0].addr.Port}).String() {
+			limit = 2 // two connections share this remote address: one callback each
+		}
+		if n > limit {
 			twice = append(twice, r)
 		}
 	}
